@@ -11,9 +11,15 @@ MIRRORS = {
     # what a selector takes depends on the queued times only (tie tables), and nothing of an earlier episode survives a reset
     "C02": [("c03", {"C03.tie": "C02.future"}, ()), ("c05", {"C05.reset": "C02.handoff"}, ())],
     # a blocking step waits for the arrival of every message it consumes
-    "C03": [("c04", {"C04.ts_max": "C03.overlap"}, ())],
+    # ... and nothing handed to a connection that is ready to receive (READY or RUNNING) is dropped on the way
+    "C03": [("c04", {"C04.ts_max": "C03.overlap"}, ()), ("c05", {"C05.typestate": ("C03.counter", "gate:conn")}, ())],
     # ... and for exactly the messages the tiling assigns to it
-    "C04": [("c03", {"C03.tiling": "C04.ts_max"}, ())],
+    # the expected delay that enters the phases is the one given (0.0 included), by default the 0.99-quantile
+    "C04": [("c03", {"C03.tiling": "C04.ts_max"}, ()), ("c15", {"C15.default": "C04.phase"}, ())],
+    # generated delays are the clipped samples of the configured distributions
+    "C12": [("c15", {"C15.nonneg": ("C12.scan", "StaticDist.sample")}, ())],
+    # a delay set between episodes is what the next episode simulates: no pre-drawn sample of the old distribution survives a reset
+    "C16": [("c05", {"C05.reset": ("C16.phase", "node.q_sample")}, ())],
     # every partition is selected once (clip of the step counter) and every generation of it is visited once, in order
     "C06": [("c09", {"C09.clip": "C06.count"}, ()), ("c07", {"C07.order": "C06.count"}, ())],
     # window length of a trainable connection
@@ -25,5 +31,6 @@ MIRRORS = {
     # a trainable delay stays inside [min, max] (>= 0)
     "C15": [("c10", {"C10.saturate": "C15.nonneg"}, ())],
     # what the exported policy must reproduce: the action path of training (squash wrapper)
-    "C20": [("c19", {"C19.squash": "C20.pipeline"}, ())],
+    # ... and the observation normalisation of training: the batch a rollout step returns is normalised with the statistics it stores
+    "C20": [("c19", {"C19.squash": "C20.pipeline", "C19.moments": ("C20.pipeline", "obs step: normalised")}, ())],
 }
